@@ -84,14 +84,16 @@ impl Property for C10 {
     fn assumptions(&self) -> Vec<&'static str> {
         vec!["promptness is decided without a clock: frozen scripts turn any wait for a script into an exactly detectable stall", "kill() reaches the shell zinoma spawned, as in reality; grandchildren are outside the statement"]
     }
-    fn generate(&self, rng: &mut Rng, _case: u64) -> Scenario {
-        let watch = rng.chance(30);
+    fn generate(&self, rng: &mut Rng, case_no: u64) -> Scenario {
+        // every 20th case is a wide graph (queues full while the signal arrives)
+        let force_wide = case_no % 20 == 3;
+        let watch = !force_wide && rng.chance(30);
         if watch {
             let mut sc = super::watch::gen_watch(rng, &super::watch::WatchOpts { max_bursts: 2, ..Default::default() });
             sc.label = format!("exit-{}", sc.label);
             return sc;
         }
-        let mut sc = gen::gen_graph(rng, &GraphOpts { max_n: 8, big_permille: 60, ..Default::default() });
+        let mut sc = gen::gen_graph(rng, &GraphOpts { max_n: 8, big_permille: 30, force_wide, ..Default::default() });
         let args = gen::gen_request(rng, &sc);
         let n: usize = sc.projects[0].targets.len();
         let mut plan = gen::gen_plan(rng, 60 + 40 * n as u64);
